@@ -6,7 +6,9 @@ import (
 	"encoding/json"
 	"fmt"
 	"math"
+	"strings"
 
+	"github.com/cloudwego/gopkg/protocol/thrift"
 	"github.com/cloudwego/gopkg/protocol/thrift/unknownfields"
 
 	"verif/gen"
@@ -106,6 +108,14 @@ func c13Diff(path string, got, want unknownfields.UnknownField, cmpID bool) stri
 }
 
 func c13One(c *mc.Ctx, fields []ref.Field, desc string) {
+	c13OneSpan(c, fields, desc)
+	// the same with the span-cache allocator switched on (strings are then carved out of a shared 1 MiB span)
+	thrift.SetSpanCache(true)
+	c13OneSpan(c, fields, desc+" [span cache on]")
+	thrift.SetSpanCache(false)
+}
+
+func c13OneSpan(c *mc.Ctx, fields []ref.Field, desc string) {
 	c.Eval(1)
 	var enc []byte
 	for i := range fields {
@@ -555,7 +565,7 @@ func init() {
 				if !ok {
 					panic("replay: recorded fields are not well-formed")
 				}
-				c13One(c, v.F, k.Desc)
+				c13One(c, v.F, strings.TrimSuffix(k.Desc, " [span cache on]"))
 			})
 		},
 	})
